@@ -16,13 +16,13 @@ import (
 // Violation is one observed violation of a property.
 type Violation struct {
 	Property string `json:"property"`
-	Sig      string `json:"sig"`    // context-free root-cause signature
-	Entry    string `json:"entry"`  // entry point / sub-monitor
-	Input    string `json:"-"`      // the failing input (exact bytes)
+	Sig      string `json:"sig"`   // context-free root-cause signature
+	Entry    string `json:"entry"` // entry point / sub-monitor
+	Input    string `json:"-"`     // the failing input (exact bytes)
 	InputB64 string `json:"input_b64"`
 	InputTxt string `json:"input_text"` // lossy, for readers
-	Detail   string `json:"detail"` // human readable diagnosis
-	Count    int64  `json:"count"`  // number of cases with this signature (first one is kept)
+	Detail   string `json:"detail"`     // human readable diagnosis
+	Count    int64  `json:"count"`      // number of cases with this signature (first one is kept)
 }
 
 // Encode fills the transport fields.
@@ -47,18 +47,18 @@ type Sample struct {
 
 // Result is what a worker hands back to the driver.
 type Result struct {
-	Property     string             `json:"property"`
-	Shard        int                `json:"shard"`
-	Evals        int64              `json:"evals"`
-	Counters     map[string]int64   `json:"counters"`
-	Max          map[string]float64 `json:"max"`
+	Property     string              `json:"property"`
+	Shard        int                 `json:"shard"`
+	Evals        int64               `json:"evals"`
+	Counters     map[string]int64    `json:"counters"`
+	Max          map[string]float64  `json:"max"`
 	Sets         map[string][]string `json:"sets"`
-	Samples      []Sample           `json:"samples"`
-	Violations   []Violation        `json:"violations"`
-	Inconclusive []string           `json:"inconclusive"`
-	Exhaustive   map[string]bool    `json:"exhaustive"`
-	Notes        []string           `json:"notes"`
-	DistinctFile string             `json:"distinct_file"`
+	Samples      []Sample            `json:"samples"`
+	Violations   []Violation         `json:"violations"`
+	Inconclusive []string            `json:"inconclusive"`
+	Exhaustive   map[string]bool     `json:"exhaustive"`
+	Notes        []string            `json:"notes"`
+	DistinctFile string              `json:"distinct_file"`
 }
 
 // Ctx is the per-worker run context.
@@ -78,10 +78,10 @@ type Ctx struct {
 	violIdx  map[string]int
 	// known inputs/sigs are matched in the driver, not here.
 
-	journal  []byte // mmap'd
-	caseNo   uint64
-	maxViol  int
-	Single   bool // replay / witness mode: run exactly one case
+	journal []byte // mmap'd
+	caseNo  uint64
+	maxViol int
+	Single  bool // replay / witness mode: run exactly one case
 }
 
 func NewCtx(prop, tier string, seed uint64, shard, nshards int, repo string) *Ctx {
